@@ -153,3 +153,23 @@ chk("C20", "exploration", "black-box monitoring of the ASan-built tools (exit st
     "generated until leading-zero coordinates and scalars occurred (counted in the evidence); RFC 7518 member encodings checked by Python.",
     "Trusted: OpenSSL key accessors in drivers/d_c20.c; --print only with the command cat; Windows paths not exercised; blank lines/CRLF on "
     "stdin unjudged.", "DESIGN.md 3/C20")
+
+# ---- round 10 (sizes and names an implementation plausibly special-cases) ----
+more("C01", "oct keys of 129 and 200 octets (longer than every hash block) and, for every oct key, tokens signed by the reference under related keys (prefixes of 16..128 octets, one octet shorter/longer, last octet changed) that must be rejected.")
+more("C02", "Keys include a 512-bit EC key (brainpoolP512r1; thorough also brainpoolP256r1/P384r1, secp224r1); half of the key slots carry a kid and the token headers cycle through eight decorations (kid equal/other/empty/non-string, jwk, jku/x5c/x5t, cty) that must not change which key or algorithm judges the token.")
+more("C03", "Half of the key slots carry a kid and the token headers cycle through eight decorations (kid equal/other/empty/non-string, embedded jwk, jku/x5c/x5t) that must not make a keyed checker treat the token as unsigned.")
+more("C04", "Length relations: expected and actual values that share a prefix and differ in length by 1..131072 characters (multiples of 256 and 65536 and their neighbours), both directions, six base lengths.")
+more("C05", "Keys include oct keys of 129 and 300 octets and an 8200-bit RSA key read from data/keys (thorough: 16384 bits), i.e. signatures longer than 1024 octets.")
+more("C06", "The first 132 generated cases are fixed: every key's own alg name and 'none' followed by 1..4096 filler characters (multiples of 256 and neighbours), correctly signed; the random classes add the same for all ten alg names.")
+more("C08", "key_ops arrays of up to 79 entries: the registered operations in any order among 1..70 other names and repeats, also with all other names first.")
+more("C10", "Size sweep: one string claim sized so that the signing input takes every length within +-12 of 64..65536 under three header lengths (unsigned, HS256, ES256); the evidence counts the distinct lengths reached within 2 of each size.")
+more("C11", "Dictionary mode: 77 multi-character affixes (URL/HTML/JSON escapes of '=', '+', '/', line ends, quotes, BOM, zero-width space) at the end, start or middle of alphabet text of 33 lengths (0..4097).")
+more("C12", "The provider-switch histories also run with a 200-octet oct key and with RSA keys of 8200 and 8448 bits read from data/keys (thorough: 16384 bits).")
+more("C13", "The pristine verdict of every (provider, configuration, token) is taken in a child process forked before the driver verified anything (one child per verdict); all keys of the workload carry the same kid; builder action 9 puts one of 46 registered JOSE header parameters / registered claims with values of several JSON types before a generate.")
+more("C14", "The history workload includes builder action 9 (one of 46 registered JOSE header parameters / registered claims, e.g. b64, crit, zip, jwk, x5c, jti, cnf, with values of several JSON types) before a generate.")
+more("C15", "Size sweep: a string member of N-18..N+2 characters for N in 16..65536 on all six targets, read back whole, by name, as string and pretty, so that the JSON text takes every length around the usual buffer sizes.")
+more("C16", "Bulk documents that mix good and flagged keys (33..300 flagged items among up to 900, every 1st/2nd/3rd key flagged) followed by free_bad and the other operations.")
+more("C17", "Scenarios with claims/headers whose JSON text exceeds 4 KiB and 16 KiB (generate and verify). jansson's serialiser/parser entry points are wrapped in the driver: a differing result after jansson *reported* the failed allocation is keyed jansson-failure-ignored:<entry point> (libjwt's defect), separate from the known findings where jansson swallows the failure itself.")
+more("C18", "The shared keyring holds 12 keys, three of them oct keys under one algorithm of which two are longer than any hash block (129 and 200 octets), plus a 300-octet HS512 key; these are the hot set of the first repeat.")
+more("C19", "Tokens include payloads of 4-70 KiB whose checked claims lie beyond the first 4/64 KiB of the serialised claims (and one with the large member last); the callback operations include replacements that keep the serialised length (exp=1000000000, iss=yo).")
+more("C20", "Key files include an 8200-bit RSA key from data/keys (thorough: 16384 bits): members longer than 1024 octets through key2jwk, jwk2key, jwt-generate and jwt-verify.")
